@@ -1570,7 +1570,7 @@ class Interp:
             # applied to opaque data (or one the models cannot handle) yields an opaque value
             fmod = getattr(fn, "__module__", None) or ""
             import numpy as _np
-            np_opaque = (fmod.startswith("numpy") or isinstance(fn, _np.ufunc)) \
+            np_opaque = (fmod.startswith(("numpy", "scipy")) or isinstance(fn, _np.ufunc)) \
                 and (any(_has_sym(a) for a in args) or any(_has_sym(v) for v in kwargs.values()))
 
         def _opaque_np():
@@ -1831,6 +1831,19 @@ class Interp:
             raise Unsupported(f"model of {obj.clsname} has no attribute '{name}'")
         if is_sym(obj) or isinstance(obj, (PyRaiseValue,)):
             m = self.models.sym_attr(self, obj, name)
+            if m is NotImplemented and isinstance(obj, SOpaque) and getattr(obj, "pytype", None) is None \
+                    and getattr(getattr(self, "cur_frame", None), "unit", None) is not None \
+                    and getattr(self.cur_frame.unit, "opaque_arith", False) and not name.startswith("__"):
+                # method of an opaque array (max, min, flatten, ...): an opaque value tagged with the call
+                def _meth(interp, o, *a, _name=name, **k):
+                    from .sym import Elem
+                    r = SOpaque(interp.ctx.const(f"method_{_name}", Elem))
+                    SIGS[id(r)] = (r, ("method", _name, sig_of(o), tuple(sig_of(x) for x in a),
+                                       tuple(sorted((kk, sig_of(v)) for kk, v in k.items()))))
+                    return r
+                if name in ("shape",):
+                    raise Unsupported("shape of an opaque value")
+                return BoundModel(_meth, obj, name)
             if m is NotImplemented:
                 raise Unsupported(f"attribute {name} of {type(obj).__name__}")
             return m
